@@ -4,7 +4,8 @@ version byte the encoder really emits per (network, address type), observed by r
 
   to_bitcoin_address: the if/elif chain  `network == "mainnet" and addr_type == "p2pkh": version = b"\\x00"` ...
   scriptpubkey:       `version in [b"\\x00", b"\\x6f"]` -> p2pkh_script_pubkey ; `version in [b"\\x05", b"\\xc4"]` ->
-                      p2sh_script_pubkey ; `hrp in [b"bc", b"tb", b"bcrt"]` ; the witness program lengths 20 / 32 ;
+                      p2sh_script_pubkey ; `if len(payload) != 20: raise ValueError` ; `hrp in [b"bc", b"tb", b"bcrt"]` ;
+                      the witness program lengths 20 / 32 ;
                       the order of the three tests (is_point, is_base58check, is_segwit_addr)
 """
 import ast
@@ -97,6 +98,19 @@ def dispatcher_tables(fn):
             calls = _called_names(node.body) & {"p2wpkh_script_pubkey", "p2wsh_script_pubkey"}
             assert len(calls) == 1, calls
             lengths.append((c.value, calls.pop()))
+    # `if len(payload) != N: raise ...` in front of the version-byte dispatch
+    plen = []
+    for node in ast.walk(f):
+        if isinstance(node, ast.If) and isinstance(node.test, ast.Compare) and isinstance(node.test.ops[0], ast.NotEq) \
+                and isinstance(node.test.left, ast.Call) and getattr(node.test.left.func, "id", None) == "len" \
+                and len(node.test.left.args) == 1 and getattr(node.test.left.args[0], "id", None) == "payload":
+            c = node.test.comparators[0]
+            assert isinstance(c, ast.Constant) and isinstance(c.value, int) and not isinstance(c.value, bool)
+            assert len(node.body) == 1 and isinstance(node.body[0], ast.Raise) and not node.orelse, "length check must raise"
+            exc = node.body[0].exc
+            name = exc.func.id if isinstance(exc, ast.Call) else getattr(exc, "id", None)
+            plen.append((c.value, name))
+    assert len(plen) == 1, "expected exactly one `if len(payload) != N: raise`, found %r" % plen
     assert set(vers) == {"p2pkh_script_pubkey", "p2sh_script_pubkey"}, vers
     assert hrps is not None, "hrp assertion not found"
     assert len(lengths) == 2, lengths
@@ -114,7 +128,7 @@ def dispatcher_tables(fn):
         else:
             assert node.orelse and isinstance(node.orelse[0], ast.Raise), "the chain must end in a raise"
             break
-    return vers, hrps, sorted(lengths), order
+    return vers, hrps, sorted(lengths), order, plen[0]
 
 
 def _b58decode(s):
@@ -133,7 +147,7 @@ def register(gt):
         import bits.utils as u
         import bits.script.utils as su
         rows = encoder_versions(u.to_bitcoin_address)
-        vers, hrps, lengths, order = dispatcher_tables(su.scriptpubkey)
+        vers, hrps, lengths, order, plen = dispatcher_tables(su.scriptpubkey)
         # what the encoder emits (independent Base58 decoding, hashlib checksum)
         emitted = []
         for net in ("mainnet", "testnet", "regtest"):
@@ -155,5 +169,6 @@ def register(gt):
         out += "Definition dispatch_hrps : list bytes := %s.\n" % gt.coq_list(gt.coq_bytes(h) for h in hrps)
         out += "Definition dispatch_lengths : list (Z * bytes) := %s.\n" % gt.coq_list(
             "(%s, %s)" % (gt.coq_Z(n), gt.coq_string_bytes(b)) for n, b in lengths)
+        out += "Definition dispatch_payload_length : Z * bytes := (%s, %s).\n" % (gt.coq_Z(plen[0]), gt.coq_string_bytes(plen[1]))
         out += "Definition dispatch_order : list bytes := %s.\n" % gt.coq_list(gt.coq_string_bytes(o) for o in order)
         return out
